@@ -922,6 +922,13 @@ func (ex *Exec) unflatten(st *State, t types.Type, vals []*Term, pos *int) Value
 			}
 		}
 		if _, ok := u.(*types.Signature); ok {
+			if os.Getenv("GOVC_DEBUGMAP") != "" {
+				bs := b.String()
+				if len(bs) > 200 {
+					bs = bs[:200]
+				}
+				fmt.Fprintf(os.Stderr, "heapfn from %s\n", bs)
+			}
 			return &VFunc{Sym: ex.fresh("heapfn", SInt).Name, Nil: Eq(b, IntLit(0))}
 		}
 		if _, ok := u.(*types.Chan); ok {
